@@ -1,5 +1,6 @@
 import BFL.Gen.RaceTable
 import BFL.Proofs.RaceComplete
+import BFL.Proofs.RaceJoin
 /-
 C10 — the obligations that are re-checked against what the code says *now*: every statement
 here is evaluated by the kernel (`decide +kernel`, no axioms) on the table regenerated from the
@@ -61,6 +62,14 @@ theorem lifecycle_four :
     (table.fieldIds [(name% "FilteringAlgorithm", name% "run_"), (name% "FilteringAlgorithm", name% "reset_"),
         (name% "FilteringAlgorithm", name% "teardown_"), (name% "FilteringAlgorithm", name% "filtering_step_")]).length = 4 := by
   decide +kernel
+
+/-- **must hold**: `wait()` joins the filtering thread, and no function of either role detaches, moves
+    or reassigns the handle (`boot()` being the only assignment) -/
+theorem join_certified : table.joinCertifiedIn (reachClaim .controller) (reachClaim .filter) = true := by
+  decide +kernel
+
+/-- locksets only on rows whose object is `this`, and made of mutex members only -/
+theorem locks_certified : table.locksCertifiedB = true := by decide +kernel
 
 /-! ### consequences (no evaluation) -/
 
